@@ -82,6 +82,18 @@ for _pid, _fam in _LAY.items():
         CHECKS[_pid]['assumptions'] = list(CHECKS[_pid].get('assumptions', [])) + [
             'supplement: ' + _fam + ' elements with the node at offsets past 2^16, 2^17, 2^20 and 2^24; the library may write nothing of an element but its node (shadow copy compared after every call, payload rewritten by the owner between calls)']
 
+# Repetition supplement (harness/cycles.c): one operation pair repeated more than 2^22 (costly families 2^20; thorough 2^24 / 2^22)
+# times on ONE small object: per-object state that counts operations (tickets, generations, deferred-work counters in 8, 16 or
+# 20 bits) wraps only then.
+_CYC = {'C01': 'trees', 'C02': 'trees', 'C03': 'hash', 'C07': 'heap', 'C08': 'map', 'C09': 'vector', 'C10': 'string', 'C12': 'dlist',
+        'C13': 'slist', 'C14': 'array'}
+for _pid, _fam in _CYC.items():
+    if _pid in CHECKS:
+        CHECKS[_pid]['runs'] = list(CHECKS[_pid]['runs']) + [
+            {'harness': 'cycles', 'mode': _fam, 'sources': ['harness/cycles.c'], 'configs': both(['rel-asan', 'rel-native'], ['dbg-asan', 'rel-asan', 'rel-native']), 'workers': 1}]
+        CHECKS[_pid]['assumptions'] = list(CHECKS[_pid].get('assumptions', [])) + [
+            'supplement: one operation pair repeated > 2^22 times (2^20 for hash/map/array) on one small ' + _fam + ' object, cheap observables after every cycle, full content near every power of two']
+
 # Caller-side supplement (harness/reread.c): accessors are read, the object is changed through the API and the
 # same accessors are read again inside ONE optimised caller function; a function attribute or an inline body in
 # a public header that lets the client's compiler keep a stale value (e.g. __attribute__((const)) on a getter)
